@@ -140,25 +140,50 @@ def c08Sa : Handler := fun c => do
         ("e2e", listJ (listJ ratToJson) full), ("eval_identity", boolJ (evalOut == x))]))
   pure (objJ [("items", Json.arr outs.toArray)])
 
-/-- case: {T, len, src, flow, eps, mu?}. Reply: knots and read positions of
-`warp_1d_grid(order=1)`; `mu` absent = the repaired code's margin `2 eps T`. -/
-def c08Grid : Handler := fun c => do
+/-- case: {T, F, eps_grid, items: [{len, feats, params}]}: `spec_augment_apply_parameters` on
+user-supplied parameters (no draw). -/
+def c08Apply : Handler := fun c => do
   let T ← getNat c "T"
-  let len ← getNat c "len"
-  let src ← getRat c "src"
-  let flow ← getRat c "flow"
-  let eps ← getRat c "eps"
-  let mu ← match ← getOptRat c "mu" with
-    | some m => pure m
-    | none => pure (knotMargin eps T)
-  let k := warpKnots eps mu T len src flow
-  let g := warpGridWith eps mu T len src flow
-  pure (objJ [
+  let F ← getNat c "F"
+  let epsG ← getRat c "eps_grid"
+  let items ← getList pure c "items"
+  let outs ← items.mapM (fun it => do
+    let len ← getNat it "len"
+    let x ← field it "feats" >>= jsonToList (jsonToList jsonToRat)
+    let p ← field it "params" >>= parseParams
+    pure (objJ [("apply", applyOne epsG x T F len p)]))
+  pure (objJ [("items", Json.arr outs.toArray)])
+
+/-- Knots, grid and read positions of `warp_1d_grid(order=1)` for one batch row; with the
+repaired code's margin also the literal float-stable evaluation (`warpGridStable`), which
+`C08_linear_warp_stable_eq` proves equal (whenever `2 eps T ≤ 1`). -/
+def gridOne (eps : Rat) (mu : Option Rat) (T len : Nat) (src flow : Rat) : Json :=
+  let m := mu.getD (knotMargin eps T)
+  let k := warpKnots eps m T len src flow
+  let g := warpGridWith eps m T len src flow
+  let st := warpGridStable eps T len src flow
+  objJ [
     ("knots", listJ ratToJson [k.c1, k.c2, k.c3, k.y2]),
     ("grid", listJ ratToJson g),
     ("pos", listJ (fun v => ratToJson (readPos T v)) g),
     ("spec", objJ [("monotone", boolJ (monotoneb g)),
+      ("stable_eq", boolJ (mu.isSome || st == g)),
       ("knots_increasing", boolJ (decide (k.c1 < k.c2) && decide (k.c2 < k.c3) && decide (k.c1 < k.y2)
-        && decide (k.y2 < k.c3)))])])
+        && decide (k.y2 < k.c3)))])]
 
-def main : IO Unit := Proto.run [("c08.sa", c08Sa), ("c08.grid", c08Grid)]
+/-- case: {T, len, src, flow, eps, mu?} or {T, eps, mu?, rows: [{len, src, flow}]} (a batch).
+`mu` absent = the repaired code's margin `2 eps T`. -/
+def c08Grid : Handler := fun c => do
+  let T ← getNat c "T"
+  let eps ← getRat c "eps"
+  let mu ← getOptRat c "mu"
+  match fieldOpt c "rows" with
+  | some _ => do
+    let rows ← getList pure c "rows"
+    let outs ← rows.mapM (fun r => do
+      pure (gridOne eps mu T (← getNat r "len") (← getRat r "src") (← getRat r "flow")))
+    pure (objJ [("rows", Json.arr outs.toArray)])
+  | none => do
+    pure (gridOne eps mu T (← getNat c "len") (← getRat c "src") (← getRat c "flow"))
+
+def main : IO Unit := Proto.run [("c08.sa", c08Sa), ("c08.apply", c08Apply), ("c08.grid", c08Grid)]
